@@ -479,41 +479,40 @@ def _grid_worker(task):
                     rng = None if seed is None else random.Random(f'{seed}/{"".join(sv)}')
                     yield vi, [pick(s, rng) for s in sv]
 
-        for _ in [0]:
-            for vi, vec in all_vectors():
+        for vi, vec in all_vectors():
+            grid_apply(book, vec)
+            for k, f in enumerate(fl):
+                fn, form = f[4], G_FORMS[f[5]]
+                cat = grid_category(fn, form[5])
+                exp, got, ok = check(k, vec)
+                if exp is None:
+                    continue
+                st = stats[cat]
+                st['evaluations'] += 1
+                if any(not is_blank(x) for x in vec):
+                    st['nontrivial'] += 1
+                if len(st['samples']) < 2 and vi % 7 == 3:
+                    st['samples'].append({'formula': f[3], 'v': [show(x) for x in vec], 'value': show(got), 'expected': show_exp(exp)})
+                if ok:
+                    continue
+                st['failing'] += 1
+                kinds = sorted(kind_of(x) for x in vec if not is_blank(x))
+                if any(_contains(p, kinds) for key in ((fn, ''), (fn, form[0])) for p in known.get(key, [])):
+                    continue
+                mv = minimise(k, vec)
+                mexp, mgot, _ = check(k, mv)
+                bexp, bgot, bok = check(base_of[fn], mv)
+                specific = form[0] != 'col' and bexp is not None and bok
+                mk = sorted(kind_of(x) for x in mv if not is_blank(x))
+                known.setdefault((fn, form[0] if specific else ''), []).append(mk)
+                key = f'C11.{fn}.' + ('+'.join(mk) if mk else 'allblank') + (f'.{form[0]}' if specific else '')
+                if isinstance(mgot, codec.Raised):
+                    key += '.raises'
+                st['fails'].append({'key': key, 'size': len(mk),
+                                    'what': f'{f[3]} on sheet {G_TITLES[f[0]]} with v={[show(x) for x in mv]} placed by overrides -> '
+                                            f'{show(mgot)}, expected {show_exp(mexp)}',
+                                    'replay': {'kind': 'grid', 'vec': [enc(x) for x in mv], 'fn': fn, 'form': form[0]}})
                 grid_apply(book, vec)
-                for k, f in enumerate(fl):
-                    fn, form = f[4], G_FORMS[f[5]]
-                    cat = grid_category(fn, form[5])
-                    exp, got, ok = check(k, vec)
-                    if exp is None:
-                        continue
-                    st = stats[cat]
-                    st['evaluations'] += 1
-                    if any(not is_blank(x) for x in vec):
-                        st['nontrivial'] += 1
-                    if len(st['samples']) < 2 and vi % 7 == 3:
-                        st['samples'].append({'formula': f[3], 'v': [show(x) for x in vec], 'value': show(got), 'expected': show_exp(exp)})
-                    if ok:
-                        continue
-                    st['failing'] += 1
-                    kinds = sorted(kind_of(x) for x in vec if not is_blank(x))
-                    if any(_contains(p, kinds) for key in ((fn, ''), (fn, form[0])) for p in known.get(key, [])):
-                        continue
-                    mv = minimise(k, vec)
-                    mexp, mgot, _ = check(k, mv)
-                    bexp, bgot, bok = check(base_of[fn], mv)
-                    specific = form[0] != 'col' and bexp is not None and bok
-                    mk = sorted(kind_of(x) for x in mv if not is_blank(x))
-                    known.setdefault((fn, form[0] if specific else ''), []).append(mk)
-                    key = f'C11.{fn}.' + ('+'.join(mk) if mk else 'allblank') + (f'.{form[0]}' if specific else '')
-                    if isinstance(mgot, codec.Raised):
-                        key += '.raises'
-                    st['fails'].append({'key': key, 'size': len(mk),
-                                        'what': f'{f[3]} on sheet {G_TITLES[f[0]]} with v={[show(x) for x in mv]} placed by overrides -> '
-                                                f'{show(mgot)}, expected {show_exp(mexp)}',
-                                        'replay': {'kind': 'grid', 'vec': [enc(x) for x in mv], 'fn': fn, 'form': form[0]}})
-                    grid_apply(book, vec)
     stats['cpu'] = time.process_time() - cpu0
     return stats
 
@@ -1194,7 +1193,7 @@ def sc_arg_counts(seed):
                 args.append(str(j + 1))
                 scal.append(j + 1)
             else:
-                args.append(f'A{j + 2}:A{j + 1}' if False else f'A{j + 1}:A{j + 1}')
+                args.append(f'A{j + 1}:A{j + 1}')
                 ment.append(model[j])
         for k, fn in enumerate(FNS):
             if fn == 'COUNTBLANK':
